@@ -3,8 +3,10 @@ package props
 import (
 	"fmt"
 	"path/filepath"
+	"unsafe"
 
 	"github.com/couchbase/nitro"
+	"github.com/couchbase/nitro/skiplist"
 
 	"nitroverif/internal/galloc"
 	"nitroverif/internal/rt"
@@ -15,6 +17,11 @@ import (
 func runC07(c *rt.C) {
 	r := c.Rng
 	mem := []string{"poison", "pageguard"}[c.Index%2]
+	if c.Index%16 >= 14 {
+		nodeListLifecycle(c, mem)
+		c.Evals(1)
+		return
+	}
 	switch (c.Index / 2) % 4 {
 	case 0:
 		o := CtdOpt{Mem: mem, KV: r.Intn(2) == 0, NWriters: pick(r, 2, 4, 8), NKeys: pick(r, 1, 2, 4, 8),
@@ -67,6 +74,11 @@ func c07Restore(c *rt.C, mem string) {
 		return
 	}
 	fresh := db.Fresh()
+	// every second case the writer that will mutate the restored instance exists before the restore
+	var early *nitro.Writer
+	if r.Intn(2) == 0 {
+		early = fresh.N.NewWriter()
+	}
 	res, stuck, inc := loadWithProbe(fresh, dir, pick(r, 1, 2, 8))
 	if inc || stuck || res.pan != nil || res.err != nil {
 		c.Inconclusive(fmt.Sprintf("restore did not succeed (stuck=%v panic=%v err=%v): outside this property's statement", stuck, res.pan, res.err))
@@ -78,7 +90,11 @@ func c07Restore(c *rt.C, mem string) {
 		h2.Model.live[e.Key] = e.Item
 	}
 	h2.valctr = 1 << 20
-	h2.Writers = append(h2.Writers, fresh.N.NewWriter())
+	if early != nil {
+		h2.Writers = append(h2.Writers, early)
+	} else {
+		h2.Writers = append(h2.Writers, fresh.N.NewWriter())
+	}
 	for e := 0; e < 2; e++ {
 		h2.Mutate(r, 10+nk/2, 50)
 		h2.Snapshot()
@@ -90,9 +106,67 @@ func c07Restore(c *rt.C, mem string) {
 	a := db.A
 	witness := map[string]interface{}{"mem": mem, "delta": delta, "kv": kv, "keys": nk, "items_stored": len(target.Want), "alloc": a.Stats()}
 	reportAlloc(c, a, witness, "after closing the original and the restored instance")
-	c.Sig("restore/delta=%v/n=%s/mem=%s", delta, sizeClass(len(target.Want)), mem)
+	c.Sig("restore/delta=%v/n=%s/mem=%s/writer-before-load=%v", delta, sizeClass(len(target.Want)), mem, early != nil)
 	c.Sample(witness)
 	_ = nitro.DiskBlockSize
+}
+
+// nodeListLifecycle: user-managed memory; nodes returned by Put2 are chained in the library's own
+// NodeList (which uses the node's link field); one of them is taken off the list and deleted in the
+// epoch it was inserted in (the delete flushes that single node to the free workers). Nothing but
+// that node and its item may be released, and Close() must release everything exactly once.
+func nodeListLifecycle(c *rt.C, mem string) {
+	r := c.Rng
+	db := OpenDB(DBOpt{Mem: mem})
+	w := db.N.NewWriter()
+	n := 3 + r.Intn(6)
+	nl := nitro.NewNodeList(nil)
+	var nodes []*skiplist.Node
+	for i := 0; i < n; i++ {
+		nd := w.Put2(KeyBytes(i))
+		nodes = append(nodes, nd)
+		nl.Add(nd)
+	}
+	// remove one node (head, middle or tail of the list) and delete it in the same epoch
+	victim := r.Intn(n)
+	key := KeyBytes(victim)
+	got := nl.Remove(key)
+	witness := map[string]interface{}{"mem": mem, "nodes": n, "victim": victim, "list_position": posClass(n-1-victim, n)}
+	if got != nodes[victim] {
+		c.Violate("nodelist-remove", "NodeList.Remove did not return the node that was added for the key", witness)
+		return
+	}
+	if !w.DeleteNode(got) {
+		c.Violate("deletenode-result", "DeleteNode of a live node returned false", witness)
+		return
+	}
+	if !Quiesce(db.N) {
+		c.Inconclusive("quiescence probe did not settle")
+		return
+	}
+	// the other nodes are still live items of the database: their blocks must be live
+	for i, nd := range nodes {
+		if i == victim {
+			continue
+		}
+		if !db.A.IsLive(unsafe.Pointer(nd)) || !db.A.IsLive(nd.Item()) {
+			c.Violate("freed-while-linked", fmt.Sprintf("after the same-epoch DeleteNode of one list member, the node or item of another, still live key (k%d) has been released", i), witness)
+			return
+		}
+	}
+	keys := nl.Keys()
+	if len(keys) != n-1 {
+		c.Violate("nodelist-keys", fmt.Sprintf("NodeList has %d keys after removing one of %d", len(keys), n), witness)
+	}
+	s, _ := db.N.NewSnapshot()
+	if sc, _ := Scan(s, 0); len(sc) != n-1 {
+		c.Violate("content", fmt.Sprintf("snapshot has %d items, want %d", len(sc), n-1), witness)
+	}
+	s.Close()
+	db.N.Close()
+	reportAlloc(c, db.A, witness, "after Close (NodeList lifecycle)")
+	c.Sig("nodelist/n=%d/pos=%s/mem=%s", min(n, 5), posClass(n-1-victim, n), mem)
+	c.Sample(witness)
 }
 
 func reportAlloc(c *rt.C, a *galloc.Alloc, witness interface{}, where string) {
@@ -112,7 +186,7 @@ func init() {
 	rt.Register(&rt.Prop{
 		ID: "C07", Level: "exploration",
 		Technique: "runtime monitoring: exact per-block shadow live-set of the allocator passed through Config.UseMemoryMgmt (leak = live set non-empty after Close; double / invalid free recorded when it happens)",
-		Rule: "user-managed memory, alternating poison / pageguard. Lifecycles rotate over: contention engine (rejected Puts, same-epoch and cross-epoch deletes by several writers), ownership engine with random/newest-first/oldest-last/permuted close orders, GC() storms and scanners, the same with a trailing write phase and Close() while garbage is pending in the writers' lists, and backup (delta on/off) → LoadFromDisk into a fresh instance on the same allocator → further mutation → Close of both. After Close() the live set must be empty and no double/invalid free may have been recorded. " +
+		Rule: "user-managed memory, alternating poison / pageguard. Lifecycles rotate over: contention engine (rejected Puts, same-epoch and cross-epoch deletes by several writers), ownership engine with random/newest-first/oldest-last/permuted close orders, GC() storms and scanners, the same with a trailing write phase and Close() while garbage is pending in the writers' lists, backup (delta on/off) → LoadFromDisk into a fresh instance on the same allocator (every second time with a writer created before the restore) → further mutation → Close of both, and nodes chained in the library's NodeList with one of them removed and deleted in its own epoch. After Close() the live set must be empty and no double/invalid free may have been recorded. " +
 			"evaluations = lifecycles; distinct = lifecycle configuration tuples",
 		Assumptions: []string{"every snapshot/iterator handle is closed exactly once before Close()", "failed loads are outside the statement and not judged"},
 		Cases: func(t string) int {
